@@ -7,8 +7,9 @@ accumulation with break), all six cutoff modes, max(n,1), the bond cap, the
 renormalisation factor and the reported error; theorems for all spectra
 (bounds, rule + minimality with the code's <= at ties, generic = accelerated in
 exact arithmetic, error^2 = discarded weight); the absorb / isometry-flag /
-driver tables proved exhaustively; a model of functools.cache keyed by Python
-equality (True == 1).
+driver tables proved exhaustively; a model of the (typed-key) cache on
+parse_split_opts.  The models follow the code after the fix commits 91dfb209,
+29128285, 740177ad; the pre-fix variants live in coq/C05/Historic.v.
 Tie (H): exact spectra P diag(s) Q^T (signed permutations, dyadic s) through the
 numba kernels called directly, `_trim_and_renorm_svd_result` called directly,
 and `array_split` end to end; cutoffs on and next to the tie points; the
@@ -71,10 +72,7 @@ Definition obs_ok (k : Z) (r : trim) (vals : list Q) (f : option Q) (fex : bool)
 Definition chk_n k mc c mb rn s vals f fex err eex : bool :=
   obs_ok k (n_trim (mode mc) c mb rn s) vals f fex err eex.
 Definition chk_g k mc c mb rn s (raised : bool) vals f fex err eex : bool :=
-  match g_trim (mode mc) c mb rn s with
-  | None => raised
-  | Some r => negb raised && obs_ok k r vals f fex err eex
-  end.
+  negb raised && obs_ok k (g_trim (mode mc) c mb rn s) vals f fex err eex.
 Definition chk_e k mc c mb (rv : pyval) s vals f fex err eex : bool :=
   chk_n k mc c mb (parse_renorm (mode mc) rv) s vals f fex err eex.
 Definition chk_rn k (s : list Q) (n rn : Z) (f : Q) (fex : bool) : bool :=
@@ -361,7 +359,7 @@ def trunc_stream(ctx):
                                                                  max_bond=mbi, absorb=None, renorm=rn, info=ginfo)
                         gv = np.asarray(gv)
                         gerr = ginfo.get("error")
-                    except Exception as e:  # modelled: g_trim = None
+                    except Exception as e:  # the model never raises: this is a mismatch and a violation
                         raised, gv, gerr = e, [], None
                     ctx.count(("G", tuple(s), mode, str(cutoff), mb, rn), raised is not None or len(gv) < d)
                     ctx.bump("generic_trim")
@@ -369,6 +367,7 @@ def trunc_stream(ctx):
                         {**desc, "path": "generic_trim", "impl_raised": repr(raised), "impl_values": [float(v) for v in gv]})
                     gdesc = {**desc, "path": "_trim_and_renorm_svd_result"}
                     if raised is not None:
+                        # (fixed 91dfb209: abs / rel with renorm > 0 used to raise UnboundLocalError here)
                         key = "trim:generic:absrel_renorm_raises" if (mode in (1, 2) and rn > 0 and isinstance(raised, UnboundLocalError)) \
                             else "trim:generic:raised"
                         ctx.violation(key, f"generic trim raised {type(raised).__name__}: {raised}", gdesc)
@@ -513,8 +512,8 @@ Definition pma_chk (mid : Z) (a : aarg) (t : bool) (mid' : Z) (c : option Z) : b
   let '(m', c') := parse_method_absorb (meth_of_id mid) a t in (meth_id m' =? mid')%Z && code_eqb c' c.
 Definition isom_chk (mid : Z) (a : aarg) (l r : bool) : bool :=
   let '(l', r') := parse_isom (meth_of_id mid) a in Bool.eqb l l' && Bool.eqb r r'.
-Definition drv_chk (mid : Z) (c : option Z) (raised lnone sret rnone liso riso : bool) : bool :=
-  match driver_returns (meth_of_id mid) c with
+Definition drv_chk (mid shp : Z) (c : option Z) (raised lnone sret rnone liso riso : bool) : bool :=
+  match driver_returns (meth_of_id mid) (shape_of_id shp) c with
   | None => raised
   | Some (l, b, r) =>
       negb raised && Bool.eqb lnone (lfac_eqb l LNone) && Bool.eqb sret b && Bool.eqb rnone (rfac_eqb r RNone)
@@ -678,21 +677,26 @@ def tables_stream(ctx):
     with warnings.catch_warnings():
         warnings.simplefilter("ignore")
         for m in REGISTERED:
-            x = gen_matrix(nprng, 4, 4, "float64", herm=m in HERMITIAN_METHODS) * 3.0
-            for c in CODES:
-                ctx.bump("driver_table")
-                D.parse_split_opts.cache_clear()
-                try:
-                    L, sv, R = D.array_split(x, method=m, absorb=c, **untruncated_kwargs(m, 4, 4))
-                    obs = (False, L is None, sv is not None, R is None,
-                           L is not None and isom_defect(L, "l") < 1e-6, R is not None and isom_defect(R, "r") < 1e-6)
-                except Exception as e:
-                    obs = (True, True, False, True, False, False)
-                    baseline[(m, c)] = e
-                else:
-                    baseline[(m, c)] = None
-                add(f"drv_chk {zlit(METH_IDS[m])} {codelit(c)} " + " ".join(blit(b) for b in obs),
-                    {"table": "driver_returns", "method": m, "absorb": c, "impl": list(obs)})
+            # shape class matters only for the polar drivers (0 tall, 1 square, 2 wide)
+            shapes = [(1, 4, 4)] + ([(0, 5, 3), (2, 3, 5)] if m in ("polar_left", "polar_right") else [])
+            for shp, mm, nn in shapes:
+                x = gen_matrix(nprng, mm, nn, "float64", herm=m in HERMITIAN_METHODS) * 3.0
+                for c in CODES:
+                    ctx.bump("driver_table")
+                    D.parse_split_opts.cache_clear()
+                    try:
+                        L, sv, R = D.array_split(x, method=m, absorb=c, **untruncated_kwargs(m, mm, nn))
+                        # isometric in the sense Tensor.split flags it: left M^H M = 1, right M M^H = 1
+                        obs = (False, L is None, sv is not None, R is None,
+                               L is not None and isom_defect(L, "l") < 1e-6, R is not None and isom_defect(R, "r") < 1e-6)
+                        exc = None
+                    except Exception as e:
+                        obs = (True, True, False, True, False, False)
+                        exc = e
+                    if shp == 1:
+                        baseline[(m, c)] = exc
+                    add(f"drv_chk {zlit(METH_IDS[m])} {zlit(shp)} {codelit(c)} " + " ".join(blit(b) for b in obs),
+                        {"table": "driver_returns", "method": m, "shape": [mm, nn], "absorb": c, "impl": list(obs)})
     ctx.extra["_baseline"] = baseline
     failed, errors = ctx.coq_cases("tables", TABLE_HEADER, cases, shard=500)
     for path, err in errors:
@@ -856,7 +860,7 @@ def oracle_stream(ctx):
                                 continue  # sqrt forms of a numerically singular operator: tiny negative eigenvalues
                             kw["positive"] = 1  # documented switch: clip them (operator is positive semidefinite)
                         if method == "cholesky" and a is None:
-                            continue  # cholesky ignores absorb (see the driver table / isom_flags_refuted); no s to wrap
+                            continue  # cholesky ignores absorb (see the driver table): no s to wrap as a tensor
                         if method == "qr:cholesky" and ((m > n and code in (-1, -10, -11)) or (m < n and code in (1, 10, 11))):
                             continue  # documented (warning): not well-defined for that orientation
                         give_right = herm or ctx.rng.random() < 0.5
@@ -943,10 +947,11 @@ def oracle_stream(ctx):
                                 continue
                             dfc = flagged_defect(t)
                             if dfc is not None and not dfc <= max(tol * 10, 1e-7):
-                                if method in ("polar_left", "polar_right") and code == D._DEFAULT_ABSORB[method] and m != n:
+                                if method in ("polar_left", "polar_right") and ((method == "polar_left" and m > n) or (method == "polar_right" and m < n)):
+                                    # still open: W VH of a non-square polar decomposition is a partial isometry only
                                     key = f"tensor_split:isom_flag:{method}:non_square"
                                 elif method in ("cholesky", "polar_left", "polar_right"):
-                                    key = f"tensor_split:isom_flag:{method}:absorb_ignored"
+                                    key = f"tensor_split:isom_flag:{method}:absorb_ignored"  # fixed 740177ad
                                 elif rank is not None:
                                     key = f"tensor_split:isom_flag:{method}:rank_deficient_untruncated"
                                 else:
@@ -1114,10 +1119,11 @@ def run(ctx):
     ctx.trusted_base += [
         "hand-written model coq/C05/Model.v of _trim_and_renorm_svd_result, _compute_number_svals_to_keep_numba, "
         "_compute_svals_renorm_factor_numba, _trim_and_renorm_svd_result_numba, _do_absorb(_numba), parse_method_absorb, "
-        "parse_split_left_right_isom, the functools.cache on parse_split_opts; tie = correspondence evaluated in Coq on values "
+        "parse_split_left_right_isom, the typed lru_cache on parse_split_opts (renorm argument); tie = correspondence evaluated in Coq on values "
         "observed in the implementation (exact rationals; tolerance 2^-40 only where the implementation takes a root)",
         "driver contract table `driver_returns` (which factor each driver returns for each absorb code): validated on the "
-        "implementation for float64 4x4 inputs (returned / not returned / numerically isometric), not proved about LAPACK",
+        "implementation for float64 4x4 inputs, and 5x3 / 3x5 for the shape-dependent polar drivers (returned / not returned / "
+        "numerically isometric), not proved about LAPACK",
         "harness/c05.py generators, the Fraction reference of the documented rule, numpy as reference for reconstruction",
     ]
     ctx.assumptions += [
@@ -1128,7 +1134,7 @@ def run(ctx):
         "Eckart-Young optimality, accuracy of LAPACK / iterative / randomised drivers, batched SVD: oracle stream at "
         "tolerance (tests), not theorems",
     ]
-    ctx.check_props(["C05/Model.vo", "C05/Proofs.vo", "C05/Trim.vo", "C05/Tables.vo", "C05/Optimal.vo", "C05/Props.v"])
+    ctx.check_props(["C05/Model.vo", "C05/Proofs.vo", "C05/Trim.vo", "C05/Tables.vo", "C05/Optimal.vo", "C05/Historic.vo", "C05/Props.v"])
     import time
 
     import os
